@@ -13,6 +13,7 @@ import PyTough.Proofs.ListingRows
 import PyTough.Proofs.ListingValues
 import PyTough.Proofs.ListingRowFormat
 import PyTough.Proofs.ListingFile
+import PyTough.Gen.ListingBind
 
 namespace Props.C05
 open Py Model Model.Listing Proofs.Listing Proofs.Rows Proofs.Values
@@ -181,6 +182,30 @@ example : readTableLineAUTOUGH2 "    AA  1         1      0.29971E+08      0.399
     = .ok [.fin false 29971 3, .fin false 39992 (-2), .fin true 10000 (-4)] := by decide
 example : ToksOk [("0.29971E+08".toList, "   ".toList), ("-0.1E+01".toList, "\r\n".toList)] := by
   refine ⟨by decide, by decide, by decide, by decide, by decide, by decide, by decide⟩
+
+/-! ### simulator detection binds only methods that the model implements -/
+
+/-- the per-simulator methods of t2listing that the whole-file model transcribes -/
+def modelledMethods : List String :=
+  ["setup_pos_AUTOUGH2", "setup_pos_TOUGH2", "table_type_AUTOUGH2", "table_type_TOUGH2", "table_type_TOUGHplus",
+   "setup_table_AUTOUGH2", "setup_table_TOUGH2", "setup_tables_AUTOUGH2", "setup_tables_TOUGH2", "setup_tables_TOUGHplus",
+   "read_header_AUTOUGH2", "read_header_TOUGH2", "read_table_AUTOUGH2", "read_table_TOUGH2",
+   "next_table_AUTOUGH2", "next_table_TOUGH2", "next_table_TOUGHplus",
+   "read_tables_AUTOUGH2", "read_tables_TOUGH2", "read_tables_TOUGHplus",
+   "skip_to_table_AUTOUGH2", "skip_to_table_TOUGH2", "skip_to_table_TOUGHplus",
+   "read_table_line_AUTOUGH2", "read_table_line_TOUGH2",
+   "read_title_AUTOUGH2", "read_title_TOUGH2", "read_title_TOUGH2_MP", "skip_table_AUTOUGH2", "skip_table_TOUGH2"]
+
+/-- Over the table regenerated from /repo's current `detect_simulator` on every run (Gen/ListingBind.lean): for each of the
+    six simulators every internal function name is bound, and bound to a method the model implements — the model
+    dispatches through this very table (`Model.Listing.bound`).  A method added, removed or renamed in the source
+    changes the table and this theorem is checked again. -/
+theorem binding_is_modelled :
+    Gen.ListingBind.binding.length = 6 ∧
+    Gen.ListingBind.binding.all (fun p => Gen.ListingBind.internalFns.all (fun f =>
+      match p.2.lookup f with
+      | some tgt => modelledMethods.contains tgt
+      | none => false)) = true := by decide
 
 /-! ### the row-index, row-name and column-name ways of addressing a cell agree -/
 
